@@ -129,6 +129,13 @@ def checkedShl64 (a : Int) (n : BitVec 32) : Option Int :=
 def checkedShr64 (a : Int) (n : BitVec 32) : Option Int :=
   if n.toNat < 64 then some (a / ((2 ^ n.toNat : Nat) : Int)) else none
 
+/-- `x as usize` for an `f64` (saturating, NaN and negatives to 0, truncating). -/
+def f64ToUsize (b : UInt64) : Int :=
+  if F64.isNaN b then 0
+  else if F64.signBit b then 0
+  else if F64.isInf b then 18446744073709551615
+  else ((min (F64.truncMag b) 18446744073709551615 : Nat) : Int)
+
 /-- `i as f64` for an `isize` / `usize` (round to nearest even above 2^53). -/
 def isizeToF64 (i : Int) : UInt64 := Index.intToBits i
 def usizeToF64 (i : Int) : UInt64 := Index.natToBits i.toNat
@@ -179,6 +186,15 @@ def forIn {α σ : Type} (xs : List α) (init : σ) (f : α → σ → M σ) : M
   match xs with
   | [] => .ok init
   | x :: rest => M.bind (f x init) fun s => forIn rest s f
+
+/-- `for x in xs.iter_mut() { … }`: every pass gets its element and the carried state and answers what the element holds afterwards
+and the next state; the answer is the rewritten list and the final state. -/
+def forInMut {α σ : Type} (xs : List α) (init : σ) (f : α → σ → M (α × σ)) : M (List α × σ) :=
+  match xs with
+  | [] => .ok ([], init)
+  | x :: rest =>
+    M.bind (f x init) fun r =>
+    M.bind (forInMut rest r.2 f) fun q => .ok (r.1 :: q.1, q.2)
 
 /-- `for x in xs { … }` whose body may leave the enclosing function: every pass answers `inl next-state` or `inr answer`; an answer ends
 the loop at once (Rust's `return` inside the loop). -/
